@@ -1,5 +1,7 @@
 import CfdpVerif.Model.World
 import CfdpVerif.Lemmas.Monad
+import CfdpVerif.Lemmas.InvDestFaults
+import CfdpVerif.Lemmas.InvSourceFaults
 /-!
 # C14 — declared faults take the effect configured in the fault-handler table
 
@@ -167,5 +169,73 @@ example : defaultFaultTable.lookup ccPositiveAckLimit = some fhCancel ∧
     defaultFaultTable.lookup ccChecksumFailure = some fhIgnore ∧
     (setFaultHandler defaultFaultTable ccNakLimit fhAbandon).map (·.lookup ccNakLimit) = some (some fhAbandon) := by
   decide
+
+/-! ### the table decides, for every history -/
+
+/-- public calls of the receiver / of the sender (`put_request` included) -/
+inductive DestCall where
+  | sm (pkt : Option Pdu) | get | cancel (tid : Tid) | reset
+
+def DestCall.run (env : Dest.Env) : DestCall → Dest.DestSt → Dest.DestSt
+  | .sm pkt, s => stateOf (Dest.stateMachine env pkt s)
+  | .get, s => stateOf (Dest.getNextPacket s)
+  | .cancel t, s => stateOf (Dest.cancelRequest env t s)
+  | .reset, s => stateOf (Dest.reset s)
+
+inductive SrcCall where
+  | put (req : Source.PutReq) | sm (pkt : Option Pdu) | get | cancel (tid : Tid) | reset
+
+def SrcCall.run (env : Source.Env) : SrcCall → Source.SrcSt → Source.SrcSt
+  | .put r, s => stateOf (Source.putRequest env r s)
+  | .sm pkt, s => stateOf (Source.stateMachine env pkt s)
+  | .get, s => stateOf (Source.getNextPacket s)
+  | .cancel t, s => stateOf (Source.cancelRequest env t s)
+  | .reset, s => stateOf (Source.reset s)
+
+/-- **Receiver: the configured handler code decides, whatever happens.**  While the fault handler
+table is `T`, after any sequence of `state_machine` (any PDU or none), `get_next_packet`,
+`cancel_request` and `reset` calls — returning or raising — every fault callback that was delivered
+is of the kind `T` configures for the condition it reports, or it is the abandon callback of the
+cancellation-exchange rule; no other callback kind ever fires.  (Generated whole-FSM invariant,
+`Lemmas/InvDestFaults.lean`.) -/
+theorem C14_dest_callbacks_follow_table (env : Dest.Env) (T : List (Nat × Nat)) (calls : List DestCall)
+    (s : Dest.DestSt) (h : Dest.Faults.FltsOk env T s) :
+    Dest.Faults.FltsOk env T (calls.foldl (fun s c => c.run env s) s) := by
+  induction calls generalizing s with
+  | nil => exact h
+  | cons c cs ih =>
+    apply ih
+    cases c with
+    | sm pkt => exact Dest.Faults.stateMachine_c env T pkt s h
+    | get => exact Dest.Faults.getNextPacket_c env T s h
+    | cancel t => exact Dest.Faults.cancelRequest_c env T t s h
+    | reset => exact Dest.Faults.reset_c env T s h
+
+/-- per call, with the callback log cleared before it (as the driver does): every callback of this
+call follows the table the handler has at the time of the call -/
+theorem C14_dest_call_callbacks (env : Dest.Env) (pkt : Option Pdu) (s : Dest.DestSt) (hs : s.flts = []) :
+    ∀ cb ∈ (stateOf (Dest.stateMachine env pkt s)).flts, Dest.Faults.Consistent s.faults cb := by
+  have h0 : Dest.Faults.FltsOk env s.faults s := ⟨rfl, by simp [hs]⟩
+  exact (Dest.Faults.stateMachine_c env s.faults pkt s h0).2
+
+/-- **Sender: the configured handler code decides, whatever happens** (as for the receiver) -/
+theorem C14_source_callbacks_follow_table (env : Source.Env) (T : List (Nat × Nat)) (calls : List SrcCall)
+    (s : Source.SrcSt) (h : Source.Faults.FltsOk env T s) :
+    Source.Faults.FltsOk env T (calls.foldl (fun s c => c.run env s) s) := by
+  induction calls generalizing s with
+  | nil => exact h
+  | cons c cs ih =>
+    apply ih
+    cases c with
+    | put r => exact Source.Faults.putRequest_c env T r s h
+    | sm pkt => exact Source.Faults.stateMachine_c env T pkt s h
+    | get => exact Source.Faults.getNextPacket_c env T s h
+    | cancel t => exact Source.Faults.cancelRequest_c env T t s h
+    | reset => exact Source.Faults.reset_c env T s h
+
+theorem C14_source_call_callbacks (env : Source.Env) (pkt : Option Pdu) (s : Source.SrcSt) (hs : s.flts = []) :
+    ∀ cb ∈ (stateOf (Source.stateMachine env pkt s)).flts, Source.Faults.Consistent s.faults cb := by
+  have h0 : Source.Faults.FltsOk env s.faults s := ⟨rfl, by simp [hs]⟩
+  exact (Source.Faults.stateMachine_c env s.faults pkt s h0).2
 
 end Cfdp.C14
